@@ -323,6 +323,47 @@ def known_finding_runs(ctx):
     validate_runs(ctx, vlib.read_ndjson(tp), "kf")
 
 
+def delete_queue(ctx):
+    """the delete queue by itself: the code-shaped model under every interleaving (DeleteQueueImpl),
+    TLC-generated operation sequences replayed on the real DeleteQueue / DeleteCursor, and a pusher
+    thread against consumer threads; DeleteQueueTrace judges what the real queue returned"""
+    from props import enginelib
+    import tracecheck
+    vlib.mc_check(ctx, "DeleteQueueImpl", "DeleteQueueImpl.cfg" if ctx.quick else "DeleteQueueImpl_deep.cfg", timeout=600, workers=4)
+    vlib.mc_check(ctx, "DeleteQueueImpl", "DeleteQueueImpl_neg.cfg", expect_violation="NoLostDelete", timeout=120, workers=2)
+    cfg = open(os.path.join(vlib.SPEC, "Gen_DeleteQueue.cfg")).read()
+    cases = enginelib.tlc_cases(ctx, "Gen_DeleteQueue", cfg, simulate=300 if ctx.quick else 4000, depth=30, seed=ctx.seed)["CASE"]
+    cp, tp, hp = ctx.path("delq_cases.json"), ctx.path("delq_replay.ndjson"), ctx.path("delq_threads.ndjson")
+    json.dump(cases, open(cp, "w"))
+    vlib.run_bin("delq_driver", ["replay", "--in", cp, "--out", tp], timeout=300)
+    vlib.run_bin("delq_driver", ["threads", "--runs", 60 if ctx.quick else 1500, "--seed", ctx.seed, "--out", hp], timeout=900)
+    ev = [{k: v for k, v in e.items() if k not in ("seq", "th")} for e in vlib.read_ndjson(tp) + vlib.read_ndjson(hp)]
+    runs = vlib.split_runs(ev)
+    n = tracecheck.validate_runs(ctx, runs, "delq", "DeleteQueueTrace", "DeleteQueueTrace.cfg",
+                                 key=lambda r: json.dumps([[e["ev"], e.get("c"), e.get("o"), e.get("t"), len(e.get("seen", []))] for e in r])[:3000],
+                                 nontrivial=lambda r: any(e["ev"] in ("skip_to", "drain") for e in r), timeout=300)
+    ctx.cov["traces_validated_against_impl"] += n
+    ctx.cov["delete_queue"] = {"tlc_generated_sequences": len(cases), "concurrent_runs": sum(1 for r in runs if any(e["ev"] == "drain" for e in r)), "accepted": n}
+    log(f"[R/T] delete queue: {len(cases)} TLC-generated sequences + concurrent pusher/consumer runs, {n}/{len(runs)} accepted by DeleteQueueTrace")
+    # binding self-test: one corrupted get result must be rejected
+    bad = None
+    for r in runs:
+        for i, e in enumerate(r):
+            if e["ev"] == "get" and e["r"] > 0:
+                bad = [dict(x) for x in r[:i + 1]]
+                bad[i]["r"] = e["r"] + 1
+                break
+        if bad:
+            break
+    if bad:
+        bp = ctx.path("delq_selftest.ndjson")
+        vlib.write_ndjson(bp, bad)
+        ok, _ = vlib.validate_trace(ctx, "DeleteQueueTrace", "DeleteQueueTrace.cfg", bp, name="delq-selftest")
+        if ok:
+            raise vlib.ToolError("binding self-test: DeleteQueueTrace accepted a corrupted get result")
+        ctx.cov.setdefault("binding_selftests", []).append("DeleteQueueTrace rejects a trace with one corrupted get result")
+
+
 def run(ctx):
     ctx.cov["rule"] = ("a case is one operation history executed on the real IndexWriter (or one TLC state for the model); distinct = distinct "
                        "sequence of (operation, term/predicate); non-trivial = contains an add, a commit and a delete/batch/rollback")
@@ -340,6 +381,7 @@ def run(ctx):
     impl_traces(ctx, 60 if ctx.quick else 600, 25, ctx.seed + 3000)
     producers(ctx, 40 if ctx.quick else 500, ctx.seed + 4000)
     budget_runs(ctx)
+    delete_queue(ctx)
     runs = vlib.split_runs(api_events(ev2))
     if runs:
         ctx.sample({"kind": "random history executed on the real writer (API events)", "events": [
